@@ -11,7 +11,7 @@ if [[ "$chg" == *.sh ]]; then (cd "$wt" && bash "$chg") || { echo "change script
 else git -C "$wt" apply "$chg" || { echo "patch does not apply"; exit 2; }; fi
 (cd "$wt" && GOPROXY=off GOFLAGS=-mod=mod go build ./... ) || { echo "MUTANT DOES NOT COMPILE"; exit 2; }
 for id in "$@"; do
-  out=$(VERIF_REPO="$wt" python3 /verif/bin/check.py "$id" 2>&1); rc=$?
+  out=$(VERIF_REPO="$wt" python3 /verif/bin/check.py "$id" --tier "${VERIF_TIER:-quick}" 2>&1); rc=$?
   echo "== $id exit=$rc"; echo "$out" | grep -E "VIOLATION|KNOWN-FINDING|INCONCLUSIVE|^OK|BUILD FAILED" | head -5
   echo "$out" | grep -B1 "VIOLATION" | grep -v VIOLATION | head -3 | cut -c1-400
 done
